@@ -64,8 +64,39 @@ def big_cases():
     return out
 
 
+def gen_free_case(rng: random.Random, clock: str) -> dict:
+    """non-dyadic float times used verbatim (oracle only, bit for bit): bounded runs whose bounds are such values,
+    issued while the clock is such a value - bound == current clock, bound == end, the same bound twice
+    (run_up_to(t) then run_up_to_including(t)), an int bound on the float clock, a Duration bound given in minutes"""
+    case = c02.gen_free(rng, clock)
+    init = case["cmds"][0]
+    end = init[3]
+    pool = sorted({a[1][1] for body in case["prog"] for a in body if a[0] == "sched" and a[1][0] == "abs"} | {end})
+    cmds = [init]
+    t = 0
+    for _ in range(rng.randint(1, 5)):
+        r = rng.random()
+        if r < 0.15:
+            cmds.append(["step"])
+            continue
+        later = [x for x in pool if x >= t] or [end]
+        t = rng.choice(later + [end]) if r > 0.3 else t           # sometimes the bound is the clock the last run left
+        kind = rng.choice(["runupto", "runuptoincl"])
+        cmds.append([kind, t])
+        if rng.random() < 0.35:
+            cmds.append(["runuptoincl" if kind == "runupto" else "runupto", t])      # the same bound again: must stay legal
+    if clock == "float" and rng.random() < 0.4:
+        cmds.insert(rng.randint(1, len(cmds)), ["runupto", rng.choice([1, 2, 3]), "int"])
+    if clock == "dur" and rng.random() < 0.3:
+        cmds.insert(rng.randint(1, len(cmds)), ["runuptoincl", 60, "min"])
+    case["cmds"] = cmds + [["start"]]
+    return case
+
+
 def gen_case(rng: random.Random, i: int) -> dict:
     clock = S.CLOCKS[i % len(S.CLOCKS)]
+    if i % 16 in (7, 12):
+        return gen_free_case(rng, "float" if i % 16 == 7 else "dur")
     if i % 8 in (5, 6):
         return gen_fine_case(rng, "dur" if i % 8 == 5 else "float")
     u = S.unit_of(clock)
@@ -151,8 +182,9 @@ def prepare(cases, obs):
     for c in cases:
         b = {"clock": c["clock"], "strategy": c["strategy"], "prog": strip_stops(c["prog"]),
              "cmds": [c["cmds"][0], ["start"]]}
-        if "scale" in c:
-            b["scale"] = c["scale"]
+        for key in ("scale", "freetime"):
+            if key in c:
+                b[key] = c[key]
         k = json.dumps(b, sort_keys=True)
         if k not in uniq:
             uniq[k] = len(base)
@@ -206,11 +238,16 @@ def at_end_cases():
 
 
 def oracle(case, obs, ctx, idx):
-    facts = {"bounded_cut": False, "cut_at_event_time": False, "step": False, "stop_start": False, "executed": 0}
+    facts = {"bounded_cut": False, "cut_at_event_time": False, "step": False, "stop_start": False,
+             "nondyadic_bounds": False, "executed": 0}
     why = S.representable(obs, case)
     if "error" in obs:
         return ("driver-error", obs["error"]), facts
-    bad_clock = S.log_insane(obs)
+    free = bool(case.get("freetime"))        # verbatim non-dyadic floats: every comparison below is bit for bit
+    if free:
+        why = None
+        facts["nondyadic_bounds"] = True
+    bad_clock = None if free else S.log_insane(obs)
     if bad_clock:
         return ("clock-not-an-exact-number", bad_clock), facts
     if obs.get("notes"):
@@ -307,7 +344,9 @@ RULE = ("bounded-exhaustive: every sequence of <= 2 cuts (quick: + 400 sampled t
         "(cuts before, at and between event times, at the end, beyond the end, in the past) and pauses - stop() called by a handler, "
         "or by the controlling thread while a handler runs (rendezvous) - followed by start; a quarter of the cases on the fine exact scale 2^-40 with cuts one step before / at / after event times; "
         "fractional bounds on the int simulator, int bounds on the float simulator, and a float simulator driven with ints beyond 2^53 "
-        "(bounds between neighbouring ints, replication end 10^17+9); each also run uninterrupted; non-trivial = distinct case executing >= 3 events with a bounded cut before the "
+        "(bounds between neighbouring ints, replication end 10^17+9); an eighth of the cases with non-dyadic float times used verbatim "
+        "(0.1, 0.3, 1/3 ...: bounds that are such values, equal to the current clock, to the end, repeated, int on the float clock, "
+        "Duration in minutes) - oracle only, bit for bit, outside the Z-scaled model; each also run uninterrupted; non-trivial = distinct case executing >= 3 events with a bounded cut before the "
         "end, a step, or a stop/start pause")
 
 
